@@ -121,6 +121,16 @@ impl Router {
         }
     }
 
+    /// Exclusive access to the server state. Request workers hold clones of the
+    /// `Arc` until they are done; wait for them instead of failing (and thereby
+    /// dropping the notification) while any of them is still alive.
+    fn server_mut(&mut self) -> &mut Server {
+        while Arc::get_mut(&mut self.server).is_none() {
+            std::thread::sleep(std::time::Duration::from_millis(1));
+        }
+        Arc::get_mut(&mut self.server).expect("exclusive access to the server")
+    }
+
     fn on_notification(&mut self, notification: Notification) -> bool {
         if notification.method == "exit" {
             #[cfg(iwe_verif)]
@@ -139,15 +149,11 @@ impl Router {
         match notification.method.as_str() {
             "textDocument/didChange" => {
                 let params = DidChangeTextDocumentParams::deserialize(notification.params).unwrap();
-                Arc::get_mut(&mut self.server)
-                    .unwrap()
-                    .handle_did_change_text_document(params);
+                self.server_mut().handle_did_change_text_document(params);
             }
             "textDocument/didSave" => {
                 let params = DidSaveTextDocumentParams::deserialize(notification.params).unwrap();
-                Arc::get_mut(&mut self.server)
-                    .unwrap()
-                    .handle_did_save_text_document(params);
+                self.server_mut().handle_did_save_text_document(params);
             }
             default => {
                 debug!("unhandled request: {}", default)
